@@ -390,6 +390,15 @@ fn main() {
         }
     }
 
+    // a conditional-format formula that reads a cell behind a blocked dynamic array: from_workbook's
+    // evaluate_conditional_formatting recomputes it without the spill check
+    {
+        let mut um = fresh();
+        let _ = um.set_user_input(0, 2, 1, "=SEQUENCE(2,2)");
+        let r: ironcalc_base::cf_types::CfRuleInput = serde_json::from_str("{\"type\":\"Formula\",\"formula\":\"A1>2\",\"format\":{\"font\":null,\"fill\":null,\"border\":null,\"num_fmt\":null,\"alignment\":null},\"stop_if_true\":true}").unwrap();
+        let _ = um.add_conditional_formatting(1, "A1:A6", r);
+        run.check_state(&mut um, "fixed", &json!({"ops": ["seed workbook (A3 = A1+A2, Sheet2!A1 = Sheet1!A3*2)", "Sheet1!A2 := =SEQUENCE(2,2)", "conditional format on Sheet2!A1:A6 with formula A1>2"]}));
+    }
     // (b) fixed pool, one formula per fresh workbook
     for f in FIXED_POOL {
         let mut um = fresh();
